@@ -25,6 +25,7 @@ from twisted.internet.error import ConnectionRefusedError
 from twisted.internet.protocol import Factory, Protocol
 from twisted.internet.task import Clock, Cooperator
 from twisted.python import log as txlog
+from twisted.python.failure import Failure
 from zope.interface import alsoProvides, implementer
 from twisted.internet.interfaces import ITransport, IConsumer
 
@@ -183,6 +184,7 @@ class World:
         self.listeners = []        # flat, in creation order; each knows its generation
         self.attempts = []
         self.conns = []
+        self.eps = []              # endpoint objects the application holds: (kind, subprotocol, endpoint)
         self.waiters = []          # connect() outcomes: "pending" | "ok" | "err:<Class>"
         self.closed = 0
         self.stoppedD_calls = 0
@@ -356,10 +358,11 @@ class World:
             ats = " ".join(self._aflags(a, c) for a in self.attempts if a.gen == g)
             xs = " ".join(self._cflags(x, c) for x in self.conns if x.gen == g)
             cs.append(f"{automat_state(c)} L[{ls}] A[{ats}] X[{xs}]")
+        regs = list(m._subprotocol_factories._factories.keys()) if m is not None else []
         d = self.D
         pend = f"{1 if d._pending_dilation_key is not None else 0}{1 if d._pending_wormhole_versions is not None else 0}{len(d._pending_inbound_dilate_messages)}"
         return (f"M={ms} key={key} ver={ver} role={role} conn={conn} timer={timer} main={main} fired={fired} T={automat_state(self.T)} "
-                f"closed={self.closed} D={pend} W=[{' '.join(self.waiters)}] C=[{' | '.join(cs)}]")
+                f"closed={self.closed} D={pend} W=[{' '.join(self.waiters)}] E={len(self.eps)} R=[{' '.join(regs)}] C=[{' | '.join(cs)}]")
 
     def _lflags(self, l, c):
         return "".join(["r" if l.ready else "-", "t" if l.port in c._listeners else "-", "s" if l.stopped else "-"])
@@ -402,6 +405,34 @@ class World:
             def bad(f):
                 self.waiters[idx] = "err:" + f.type.__name__
             d.addCallbacks(ok, bad)
+            return None
+        if k == "ep":
+            # the application obtains an endpoint object and keeps it
+            if self.D._manager is None:
+                return "no-api"
+            api = self.D._manager._api
+            ep = api.listener_for(op[2]) if op[1] == "l" else api.connector_for(op[2])
+            self.eps.append((op[1], op[2], ep))
+            return None
+        if k in ("econnect", "elisten"):
+            if op[1] >= len(self.eps):
+                return "no-such"
+            kind, name, ep = self.eps[op[1]]
+            if k == "econnect" and kind != "c":
+                return "not-connector"
+            if k == "elisten" and kind != "l":
+                return "not-listener"
+            idx = len(self.waiters)
+            self.waiters.append("pending")
+            f = Factory.forProtocol(Protocol)
+            d = ep.connect(f) if k == "econnect" else ep.listen(f)
+
+            def ok2(_):
+                self.waiters[idx] = "ok"
+
+            def bad2(f):
+                self.waiters[idx] = "err:" + f.type.__name__
+            d.addCallbacks(ok2, bad2)
             return None
         if k == "t":
             getattr(self.T, op[1])(*((("happy",)) if op[1] == "close" else ()))
@@ -527,6 +558,7 @@ class Run:
             conn=None if m is None or m._connection is None else
             next((i for i, c in enumerate(w.conns) if c.proto is m._connection), -1),
             waiters=list(w.waiters),
+            main_failed=(m is not None and isinstance(m._main_channel._result, Failure)),
             key=(m is not None and m._dilation_key is not None) or (w.D._pending_dilation_key is not None),
         )
 
@@ -685,9 +717,24 @@ def oracle(r):
                     break
         else:
             for i, res in enumerate(r.final["waiters"]):
-                if res.startswith("err"):
+                if res == "err:OldPeerCannotDilateError":
                     v.append(("connect-failed-for-capable-peer", f"connect() #{i} is {res} although the peer can dilate"))
                     break
+    # 4b. ... at the very next eventual turn, for every call already issued (fresh or held endpoint alike)
+    for k2 in range(1, len(r.steps)):
+        op, tok, ev, err, summ, snap = r.steps[k2]
+        prev = r.steps[k2 - 1][5]
+        if op == ["turn"] and prev["main_failed"]:
+            for i, res in enumerate(prev["waiters"]):
+                if snap["waiters"][i] == "pending":
+                    v.append(("connect-not-failed:pending",
+                              f"_main_channel held OldPeerCannotDilateError before this turn, yet call #{i} "
+                              f"(connect()/listen() on a {'held' if any(o[0] in ('econnect', 'elisten') for o in case['ops']) else 'fresh'} "
+                              f"endpoint) is still pending after it (step {k2})"))
+                    break
+            else:
+                continue
+            break
     return v
 
 
@@ -821,6 +868,31 @@ def corpus():
                 if when == "both":
                     ops += [["turn"], ["connect"]]
                 out.append({"cfg": {}, "ops": ops + [["turn"]] + CLOSE, "name": f"old/{kind}/{'-'.join(order)}/{when}"})
+    # endpoint objects held by the application: obtained right after dilate(), used before AND after the peer's
+    # versions arrive, re-used after an earlier call on the same object already failed; connector and listener
+    # endpoints, several subprotocol names; capable and incapable peers
+    EPS = [["ep", "c", "a"], ["ep", "c", "b"], ["ep", "l", "a"], ["ep", "l", "b"]]
+    use_all = [["econnect", 0], ["econnect", 1], ["elisten", 2], ["elisten", 3]]
+    for kind in INCAPABLE + ("full", "both"):
+        for early in ([], [["econnect", 0], ["elisten", 2]], use_all):
+            for key_first in (False, True):
+                ops = [["dilate"]] + EPS + early
+                ops += ([["key"], ["versions", kind]] if key_first else [["versions", kind], ["key"]])
+                ops += [["turn"]] + use_all + [["turn"], ["econnect", 0], ["elisten", 2], ["connect"], ["turn"],
+                                               ["econnect", 0], ["econnect", 1], ["turn"]]
+                out.append({"cfg": {}, "ops": ops + CLOSE, "name": f"eps/{kind}/{len(early)}/{key_first}"})
+        # versions (and key) waiting in the Dilator before dilate(): endpoints can only be had afterwards
+        out.append({"cfg": {}, "ops": [["key"], ["versions", kind], ["dilate"]] + EPS + use_all + [["turn"]] + use_all +
+                    [["turn"], ["econnect", 1], ["elisten", 3], ["turn"]] + CLOSE, "name": f"eps-replay/{kind}"})
+        # endpoint used, failed/parked, then the wormhole is closed and the endpoint is used again
+        out.append({"cfg": {}, "ops": [["dilate"]] + EPS + [["econnect", 0], ["key"], ["versions", kind], ["turn"]] + CLOSE +
+                    [["turn"], ["econnect", 0], ["elisten", 2], ["turn"]], "name": f"eps-after-close/{kind}"})
+    # a capable peer: calls on held endpoints parked before the connection exists are released by it, later ones
+    # go through at once; a second listen() for the same name is refused by the demultiplexer
+    for side in (LOW_SIDE, HIGH_SIDE):
+        out.append({"cfg": {}, "ops": [["dilate"]] + EPS + [["econnect", 0], ["elisten", 2], ["key"], ["versions", "full"], ["turn"],
+                                                          ["econnect", 1], ["msg", "please", side], ["inbound", 0], ["kcm", 0], ["turn"], ["turn"]] +
+                    use_all + [["turn"], ["elisten", 2], ["econnect", 0], ["turn"]] + CLOSE, "name": "eps/capable"})
     # an incapable peer that nevertheless asks to dilate
     out.append({"cfg": {}, "ops": [["key"], ["versions", "empty"], ["dilate"], ["connect"], ["turn"], ["msg", "please", LOW_SIDE],
                                    ["inbound", 0], ["kcm", 0], ["turn"], ["connect"], ["turn"]] + CLOSE, "name": "old-but-pleases"})
@@ -919,6 +991,17 @@ def gen_case(rng, adversarial):
             if x < 0.58:
                 do(["connect"])
                 continue
+            if x < 0.66 and w.mgr() is not None:
+                y = rng.random()
+                if y < 0.3 or not w.eps:
+                    do(["ep", rng.choice(["c", "l"]), rng.choice(["a", "b", "cc"])])
+                else:
+                    i = rng.randrange(len(w.eps))
+                    if adversarial and rng.random() < 0.15:
+                        do([rng.choice(["econnect", "elisten"]), rng.randint(0, len(w.eps))])
+                    else:
+                        do(["econnect" if w.eps[i][0] == "c" else "elisten", i])
+                continue
             if x < 0.75 and (have_key or adversarial):
                 m = w.mgr()
                 ms = automat_state(m) if m is not None else None
@@ -949,6 +1032,11 @@ def gen_case(rng, adversarial):
         for op in setup:
             if rng.random() < 0.7:
                 do(op)
+        # held endpoints are used once more at the end (after whatever the peer's versions turned out to be)
+        if w.eps and rng.random() < 0.7:
+            do(["turn"])
+            for i, e in enumerate(w.eps):
+                do(["econnect" if e[0] == "c" else "elisten", i])
         if rng.random() < 0.85:
             for op in t_seq:
                 do(op)
